@@ -83,6 +83,9 @@ def run(tier):
                     j["stream"]["len"] = off
                 else:
                     j = wf.mkjob(jid, fn, policy=rng.choice(["full", "fixed", "halves"]), size=4093, fail_at=off, fail_kind=kind, tag="%s@%d" % (kind, off))
+                if jid % 3 == 0:
+                    j["reader"]["seekable"] = True      # the source also offers ReadAt / Seek (a file, a bytes.Reader)
+                    j["tag"] += " seekable"
                 seqjobs.append(j)
                 seqmeta[jid] = {"cnt": [s] * items, "hist": [wf.flat(s)] * items, "facts": {"kind": kind, "off": off}}
     batches.append((None, None, seqjobs, seqmeta))
@@ -104,6 +107,9 @@ def run(tier):
                     else:
                         j = wf.mkjob(jid, fn, policy=pol, size=4093, rseed=jid, fail_at=off, fail_kind=kind, tag="W=%d %s@%d" % (w, kind, off),
                                      round_delay_us=rng.choice([0, 100]), delay_us=rng.choice([0, 30]) if pol in ("full", "halves") else 0)
+                    if jid % 3 == 0:
+                        j["reader"]["seekable"] = True
+                        j["tag"] += " seekable"
                     jobs.append(j)
                     meta[jid] = {"cnt": [s] * items, "hist": [wf.flat(s)] * items, "facts": {"kind": kind, "off": off, "w": w}}
         batches.append((ts, None, jobs, meta))
